@@ -1,36 +1,480 @@
 """C18 - table joins are the relational-algebra joins on the shared columns (structural clauses)."""
 import re
-from lib.facts import find, walk, is_node, path_of, render, render_pat
-from lib import guards as G
+from lib.facts import find, walk, is_node, path_of, render, render_pat, strip_refs, last_seg
+from lib import absint as A
+
+
+def params_of_type(it, type_rx):
+    """names of the parameters of a fn/method item whose declared type matches type_rx (a role is a POSITION + TYPE in the signature, never a spelling)"""
+    out = []
+    for inp in (it.get("sig") or {}).get("inputs", []):
+        if inp and inp[0] != "self" and is_node(inp[0]) and re.search(type_rx, (inp[1] or "").replace(" ", "")):
+            out += [b[1] for b in find(inp[0], "pident")]
+    return out
+
+
+def _loop_source(e):
+    """`&x`, `x.iter()`, `x.iter().enumerate()`, `x.clone()` -> x  (the collection a loop walks)"""
+    while is_node(e):
+        if e[0] == "ref":
+            e = e[2]
+        elif e[0] == "paren":
+            e = e[1]
+        elif e[0] == "mcall" and e[2] in ("iter", "iter_mut", "into_iter", "enumerate", "clone", "borrow", "as_ref") and not e[4]:
+            e = e[1]
+        else:
+            break
+    return e
+
+
+def loop_bindings_over_field(body, owners, field):
+    """every `for PAT in <owner>.<field>` (owner one of the given locals; borrowed / .iter()'d forms included)"""
+    out = []
+    for f in find(body, "for"):
+        src = _loop_source(f[2])
+        if is_node(src) and src[0] == "field" and src[2] == field and path_of(_loop_source(src[1])) in owners:
+            out.append(f)
+    return out
 
 EXPLANATION = (
-    "Decides structural clauses of C18 from the syntax tree of the join routine. (R1) routing: each table operator token compiles the join struct of its own name and each struct passes its "
-    "own JoinMode to compile_table_join, operands in (lhs, rhs) order. (R2) mode table: from the arms of `match mode` inside the row loop of build_joined_table and the trailing unmatched-"
-    "right block, which row classes a mode emits - every matching pair (merge_rows with the matched right row), the unmatched left rows (merge_rows with the empty right side, under "
-    "`matched.is_empty()`), the unmatched right rows, or left rows only (semi: under a non-empty match set, anti: under an empty one) - equals the relational-algebra definition of that "
-    "mode; matched right rows are marked in every mode that later emits the unmatched ones. (R3) the match predicate is the conjunction (`all`) over ALL commonly named columns of cell "
-    "equality, each side read from its own table, column and row; the common columns are collected for every left column name found among the right names, with no early exit. "
-    "(R4) optional kinds: right-only columns become optional exactly in LeftOuter / FullOuter, left-only (non-shared) columns exactly in RightOuter / FullOuter; semi / anti joins keep "
-    "the left columns only. (R5) row selection: the table access kernels copy, for every column, exactly the addressed rows in order (scalar: row ix-1; index vector: output row k = source "
-    "row ix[k]-1; logical mask: flagged rows packed in order) - kernel normal forms. Not decided: the multiset of rows itself (values), duplicate column names."
+    "Decides structural clauses of C18 by evaluating the join routine symbolically, once per JoinMode (lib/absint.py: the two table parameters are the roles L / R by position and type, the "
+    "JoinMode parameter is bound to one variant; private helpers, closures, iterator pipelines and mode predicates are followed; every container has an identity and a log of what is put into "
+    "it under which path condition and loop nest). (R1) routing: each table operator token compiles the join struct of its own name and each struct passes its own JoinMode on, operands in "
+    "(lhs, rhs) order by provenance from the Term. (R2) mode table: which row classes reach the output row list (the list whose length is the `rows` of the result table) in each mode - every "
+    "matching pair (a row built from the left row and a row of the match set, or of the right rows that satisfy the predicate), the unmatched left rows (no right row, under an empty match set), "
+    "the unmatched right rows (loop over all right rows skipping the marked ones), or left rows only (semi: under a non-empty match set, anti: under an empty one) - equals the "
+    "relational-algebra definition of that mode; the match set is refilled for every left row from ALL right rows; matched right rows are marked in every mode that later emits the unmatched ones. "
+    "(R3) the match predicate is the conjunction (`all`, `!any(!=)` or the early-return loop) over ALL shared column pairs of cell equality, each side read from its own table, column and row; "
+    "the shared columns are collected once for every column name present on both sides, with no early exit. (R4) optional kinds: right-only columns become optional exactly in LeftOuter / "
+    "FullOuter, left-only (non-shared) columns exactly in RightOuter / FullOuter; semi / anti joins keep the left columns only. (R5) row selection: the table access kernels copy, for every "
+    "column, exactly the addressed rows in order (scalar: row ix-1; index vector: output row k = source row ix[k]-1; logical mask: flagged rows packed in order) - kernel normal forms. "
+    "Not decided: the multiset of rows itself (values), the inside of the row builders, duplicate column names."
 )
-TECHNIQUE = ("guard-context analysis of the join routine's syntax tree: emission table per JoinMode (push sites of the output row list with their guards and arguments), predicate shape of "
-             "rows_match, column-discovery loop, optional-kind mode sets; routing tables token -> struct -> mode")
+TECHNIQUE = ("role interpreter over the syntax tree of the join routine (abstract evaluation per JoinMode with helper inlining, constant propagation of the mode, iterator pipelines as loops, "
+             "guard clauses as facts): emission table per JoinMode, predicate normal form, column-discovery loop, optional-kind mode sets; routing tables token -> struct -> mode")
 
 WANT = {"Inner": {"pairs"}, "LeftOuter": {"pairs", "unmatched_lhs"}, "RightOuter": {"pairs", "unmatched_rhs"}, "FullOuter": {"pairs", "unmatched_lhs", "unmatched_rhs"},
         "LeftSemi": {"semi"}, "LeftAnti": {"anti"}}
 
 
-def _modes_of_cond(c):
-    """JoinMode variants accepted by an expanded `matches!(mode, A | B)` condition"""
-    out = set()
-    for m in find(c, "match"):
-        if render(m[1]).replace("&", "").strip("() ") != "mode":
+MODES = ["Inner", "LeftOuter", "RightOuter", "FullOuter", "LeftSemi", "LeftAnti"]
+L, R = ("atom", "L"), ("atom", "R")
+
+
+# ---------------------------------------------------------------- R1 helpers
+def _operand_origins(it):
+    """term(): which operand of the Term an expression is made of, in source order - 'lhs' (the field `lhs` of the &Term parameter) or 'rhs' (the second component of
+    what the loop over its field `rhs` binds).  Followed through `let` initialisers (`let operands = vec![lhs, rhs]`); a role is a field of a typed parameter,
+    never the spelling of a local.  -> function expr -> ordered list of roles"""
+    terms = set(params_of_type(it, r"^&(mut)?Term$"))
+    loop_bound = set()
+    for lp in loop_bindings_over_field(it["body"], terms, "rhs"):
+        pat = lp[1]
+        while pat[0] in ("pref", "ptype"):
+            pat = pat[2] if pat[0] == "pref" else pat[1]
+        if pat[0] == "ptuple" and len(pat[1]) == 2:
+            loop_bound |= {b[1] for b in find(pat[1][1], "pident")}
+    lets = {}
+    for st in find(it["body"], "let"):
+        if st[2] is not None:
+            for b in find(st[1], "pident"):
+                lets.setdefault(b[1], []).append(st[2])
+
+    def ordered(e, busy=()):
+        out = []
+        for x in walk(e):
+            tags = []
+            if x[0] == "field" and x[2] == "lhs" and path_of(strip_refs(x[1])) in terms:
+                tags = ["lhs"]
+            elif x[0] == "path" and "::" not in x[1] and x[1] not in busy:
+                for init in lets.get(x[1], []):
+                    tags = ordered(init, busy + (x[1],))
+                    if tags:
+                        break
+                if not tags and x[1] in loop_bound:
+                    tags = ["rhs"]
+            elif x[0] == "path" and x[1] in busy and x[1] in loop_bound:
+                tags = ["rhs"]
+            for t in tags:
+                if not out or out[-1] != t:
+                    out.append(t)
+        return out
+    return ordered
+
+
+def check_tokens(items, rep, crate):
+    """R1, token side: every arm `TableOp::X => TableX {..}` (in term() or in a helper term() calls) and the operands of the `.compile(..)` that receives the struct"""
+    n_tok = 0
+    fns = [it for it in items if it.get("k") in ("fn", "method") and it.get("body")]
+    for it in fns:
+        arms = [(m, a) for m in find(it["body"], "match") for a in m[2] if re.search(r"TableOp::(\w+)", render_pat(a[0]))
+                and any(s_[1].split("::")[-1].startswith("Table") for s_ in find(a[2], "struct"))]
+        if not arms:
             continue
-        for a in m[2]:
-            if render(a[2]) == "true":
-                out |= set(re.findall(r"JoinMode::(\w+)", render_pat(a[0])))
+        org = _operand_origins(it)
+        # `.compile(..)` calls outside the arms that receive what this function returns (the struct is chosen in a helper, compiled by the caller)
+        outer_args = []
+        for g in fns:
+            if g is it:
+                continue
+            og = None
+            for c in find(g["body"], "mcall"):
+                if c[2] == "compile" and c[4] and any(last_seg(x[1][1]) == it["name"] for x in find(c[1], "call") if is_node(x[1]) and x[1][0] == "path"):
+                    og = og or _operand_origins(g)
+                    outer_args.append(og(c[4][0]))
+        for m, a in arms:
+            mm = re.search(r"TableOp::(\w+)", render_pat(a[0]))
+            used = [s_[1].split("::")[-1] for s_ in find(a[2], "struct") if s_[1].split("::")[-1].startswith("Table")]
+            n_tok += 1
+            ok = used == ["Table%s" % mm.group(1)]
+            # operands: the leaves of the argument of `.compile(..)`, each by the Term operand it derives from
+            inner = [org(c[4][0]) for c in find(a[2], "mcall") if c[2] == "compile" and c[4]]
+            calls = inner or outer_args
+            args = calls[0] if calls else []
+            ok_args = bool(calls) and all(c == ["lhs", "rhs"] for c in calls)
+            rep.check(ok and ok_args, "C18-R1", "token:%s" % mm.group(1) if ok and ok_args else "token:%s->%s(%s)" % (mm.group(1), ",".join(used), ",".join(args[:2])),
+                      "TableOp::%s compiles %s with operands %s" % (mm.group(1), used, args[:2]), "%s (%s)" % (it["name"], crate), sample={"token": mm.group(1), "struct": used})
+    return n_tok
+
+
+# ---------------------------------------------------------------- the join routine, evaluated once per JoinMode
+def _ty(inp):
+    return (inp[1] or "").replace(" ", "")
+
+
+def _is_row_builder(it):
+    """a callee that builds ONE output row: takes a table and a row number and returns a value (not a flag, not a table); kept opaque - its call is the role"""
+    sig = it["sig"]
+    ret = (sig.get("ret") or "").replace(" ", "")
+    tys = [_ty(i) for i in sig["inputs"] if not A.is_receiver(i)]
+    if any("JoinMode" in t for t in tys) or "MechTable" in ret or ret in ("", "()", "bool", "Value", "Option<Value>") or any(re.match(r"^&?(mut)?u64$", t) for t in tys):
+        return False            # a function that reads ONE cell (it is told the column) is not a row builder
+    return any("MechTable" in t for t in tys) and any(t == "usize" for t in tys)
+
+
+def _is_kind_wrapper(it):
+    """&ValueKind -> ValueKind (the function that makes a column kind optional)"""
+    sig = it["sig"]
+    tys = [_ty(i) for i in sig["inputs"] if not A.is_receiver(i)]
+    return (sig.get("ret") or "").replace(" ", "") == "ValueKind" and len(tys) == 1 and re.match(r"^&?ValueKind$", tys[0]) is not None
+
+
+def join_routines(items):
+    """fns that take two tables and a JoinMode and return a table: the join routine is recognised by its signature"""
+    out = []
+    for it in items:
+        if it.get("k") not in ("fn", "method") or it.get("body") is None:
+            continue
+        tys = [_ty(i) for i in it["sig"]["inputs"] if not A.is_receiver(i)]
+        if len([t for t in tys if re.search(r"\bMechTable\b", t)]) == 2 and len([t for t in tys if re.search(r"\bJoinMode\b", t)]) == 1 and "MechTable" in (it["sig"].get("ret") or ""):
+            out.append(it)
+    if len(out) > 1:
+        names = {it["name"] for it in out}
+        called = {last_seg(c[1][1]) for it in out for c in find(it["body"], "call") if is_node(c[1]) and c[1][0] == "path"} & names
+        roots = [it for it in out if it["name"] not in called]
+        out = roots or out
     return out
+
+
+class ModeRun:
+    """the join routine evaluated with the two table parameters bound to the roles L / R and the JoinMode parameter bound to one variant"""
+
+    def __init__(self, items, routine, mode):
+        self.mode = mode
+        self.I = I = A.Interp(items, opaque=lambda it: _is_row_builder(it) or _is_kind_wrapper(it))
+        args, nt = [], 0
+        for k, inp in enumerate(i for i in routine["sig"]["inputs"] if not A.is_receiver(i)):
+            t = _ty(inp)
+            if re.search(r"\bJoinMode\b", t):
+                args.append(("const", "JoinMode::" + mode))
+            elif re.search(r"\bMechTable\b", t):
+                args.append(L if nt == 0 else R)
+                nt += 1
+            else:
+                args.append(("atom", "arg%d" % k))
+        self.result = I.run_item(routine, args)
+        # ---- the result table: rows = <row list>.len(), cols = <column list>.len()
+        self.out_rows = self.out_cols = None
+        for x in A.subvalues(self.result):
+            if x[0] == "struct" and x[1] == "MechTable":
+                f = dict(x[2])
+                for fld, attr in (("rows", "out_rows"), ("cols", "out_cols")):
+                    v = f.get(fld)
+                    if v is not None and v[0] == "m" and v[2] == "len" and v[1][0] == "obj":
+                        setattr(self, attr, v[1][1])
+        self.builders = {}
+        for name, its in I.fns.items():
+            for it in its:
+                if _is_row_builder(it):
+                    self.builders[name] = it
+        if self.out_rows is None:
+            # fallback: the list that receives the rows the row builders make
+            cands = {e["obj"] for e in I.events if e["k"] == "add" and e["value"][0] == "call" and e["value"][1] in self.builders}
+            feeds = {e["value"][1][1] for e in I.events if e["k"] == "add" and e["value"][0] == "elem" and e["value"][1][0] == "obj"}
+            cands -= feeds
+            if len(cands) == 1:
+                self.out_rows = cands.pop()
+        self.find_roles()
+
+    # ---- loops
+    def range_over_rows(self, lid, side, exact=True):
+        src = self.I.loops[lid]["src"]
+        if src[0] != "range":
+            return False
+        if exact:
+            return src == ("range", ("int", 1), ("field", side, "rows"), True)
+        return any(x == ("field", side, "rows") for x in A.subvalues(src))
+
+    def find_roles(self):
+        I = self.I
+        self.left_loops = [l for l in I.loops if self.range_over_rows(l, L, exact=False)]
+        self.right_loops = [l for l in I.loops if self.range_over_rows(l, R, exact=False)]
+        # the match sets: a list that receives the right row number, inside a left-row and a right-row loop, under a condition that relates both rows of both tables
+        self.matchsets = {}
+        for e in I.events:
+            if e["k"] != "add":
+                continue
+            v = e["value"]
+            if not (v[0] == "elem" and v[2] in self.right_loops and v[2] in e["loops"]):
+                continue
+            ll = [l for l in e["loops"] if l in self.left_loops]
+            if not ll:
+                continue
+            lrow = ("elem", I.loops[ll[-1]]["src"], ll[-1])
+            for c, pol in A.flat_conds(e["ctx"]):
+                if self.is_predicate(c, lrow, v):
+                    # `if p { push }` and `if !p { continue } push` state the same fact: p with its polarity is the predicate
+                    c = c if pol else ("not", c)
+                    self.matchsets[e["obj"]] = {"pred": c, "lrow": lrow, "rrow": v, "left": ll[-1], "right": v[2], "conds": A.flat_conds(e["ctx"]), "alloc": I.objs[e["obj"]]["loops"]}
+        # ... or no list at all: a flag `some right row matched` set in the loop over the right rows under the predicate (declared per left row)
+        for e in I.events:
+            for c, pol in A.flat_conds(e["ctx"]):
+                if c[0] != "exists" or c[1] not in self.right_loops or ("flag", c[1]) in self.matchsets:
+                    continue
+                lid = c[1]
+                ll = [l for l in (I.loops[lid]["outer"] or ()) if l in self.left_loops]
+                if not ll:
+                    continue
+                lrow = ("elem", I.loops[ll[-1]]["src"], ll[-1])
+                rrow = ("elem", I.loops[lid]["src"], lid)
+                for c2, pol2 in A.flat_conds(c[2]):
+                    if self.is_predicate(c2, lrow, rrow):
+                        self.matchsets[("flag", lid)] = {"pred": c2 if pol2 else ("not", c2), "lrow": lrow, "rrow": rrow, "left": ll[-1], "right": lid,
+                                                         "conds": A.flat_conds(c[2]), "alloc": (ll[-1],)}
+        # the marks: a list of `false`, one per right row
+        self.marks = {oid for oid, o in I.objs.items() if o["kind"] == "filled" and o["init"] and o["init"][0] == ("bool", False) and o["init"][1] == ("field", R, "rows")}
+
+    def is_predicate(self, c, lrow, rrow):
+        sv = set(A.subvalues(c))
+        return L in sv and R in sv and lrow in sv and rrow in sv
+
+    def predicate_holds(self, conds, lrow, rrow):
+        """the path condition contains THE match predicate (the one the match sets are filled under, or - without match sets - a condition relating both rows
+        of both tables), with the polarity that makes it true"""
+        for c, pol in conds:
+            if not self.is_predicate(c, lrow, rrow):
+                continue
+            p = c if pol else ("not", c)
+            n = _norm_predicate(self.I, p)
+            if n is not None and n[0] == "all":
+                return True
+        return False
+
+    # ---- emission classes of this mode
+    def emptiness_of_matchset(self, conds):
+        emp = None
+        for c, pol in conds:
+            em = A.emptiness(c, pol)
+            if em and em[0][0] == "obj" and em[0][1] in self.matchsets:
+                emp = em[1]
+            if c[0] == "exists" and ("flag", c[1]) in self.matchsets:
+                emp = not pol
+        return emp
+
+    def classify(self, item):
+        I = self.I
+        v, loops = item["value"], item["loops"]
+        conds = A.flat_conds(item["ctx"])
+        emp = self.emptiness_of_matchset(conds)
+        ll = [l for l in loops if l in self.left_loops]
+        rl = [l for l in loops if l in self.right_loops]
+        ml = [l for l in loops if I.loops[l]["src"][0] == "obj" and I.loops[l]["src"][1] in self.matchsets]
+        # the unmatched right rows are recognised by WHERE they are emitted (a row assembled in place or by any helper): in a loop over the right rows only,
+        # for the rows that are not marked
+        if rl and not ll and not ml and self.unmarked_guard(conds, rl[-1]):
+            return "unmatched_rhs"
+        if v[0] == "call" and v[1] in self.builders:
+            it = self.builders[v[1]]
+            args = v[2]
+            tabs = [args[k] for k in A.param_indices(it, r"\bMechTable\b") if k < len(args)]
+            # a row number is a `usize`; "no row" is spelled 0 + flag, or None of an Option<usize>
+            rows = [args[k] for k in A.param_indices(it, r"^(usize|Option<usize>)$") if k < len(args)]
+            rows = [r[2] if r[0] == "opt" and r[1] == ("bool", True) else ("int", 0) if r[0] == "opt" and r[1] == ("bool", False) else r for r in rows]
+            flags = [args[k] for k in A.param_indices(it, r"^bool$") if k < len(args)]
+            optional_row = any(re.match(r"^Option<usize>$", _ty(i)) for i in it["sig"]["inputs"] if not A.is_receiver(i))
+            lrow = ("elem", I.loops[ll[-1]]["src"], ll[-1]) if ll else None
+            if len(tabs) == 2:
+                if tabs == [L, R] and len(rows) == 2 and lrow is not None and rows[0] == lrow:
+                    r = rows[1]
+                    matched_row = (r[0] == "elem" and r[2] in ml) or \
+                        (r[0] == "elem" and r[2] in rl and self.predicate_holds(conds, lrow, r))
+                    if matched_row and all(f == ("bool", False) for f in flags) and emp is not True:
+                        return "pairs"
+                    if r == ("int", 0) and (flags or optional_row) and all(f == ("bool", True) for f in flags) and emp is True and not ml and not rl:
+                        return "unmatched_lhs"
+                return "odd-merge(%s)%s" % (",".join(A.show(a) for a in (tabs + rows + flags)[2:]), "" if emp is None else ":empty=%s" % emp)
+            if len(tabs) == 1 and tabs == [L] and len(rows) == 1 and lrow is not None and rows[0] == lrow and not ml and not rl:
+                return "semi" if emp is False else "anti" if emp is True else "lhs-only-unguarded"
+        if v[0] == "obj" and ll:
+            # a row assembled in place (a row builder inlined): classified by what its cells are read from
+            lrow = ("elem", I.loops[ll[-1]]["src"], ll[-1])
+            d = self.row_desc(v[1])
+            left = {e for e in d if e[0] == "L"}
+            right = {e for e in d if e[0] == "R"}
+            if d and left == {("L", frozenset(["L"]), frozenset([lrow]))} and not {e for e in d if e[0] == "?"}:
+                if not right and not ml and not rl:
+                    return "semi" if emp is False else "anti" if emp is True else "lhs-only-unguarded"
+                if len(right) == 1:
+                    (_, tabs_, rows_), = right
+                    if tabs_ == frozenset(["R"]) and len(rows_) == 1:
+                        r, = rows_
+                        matched_row = (r[0] == "elem" and r[2] in ml) or (r[0] == "elem" and r[2] in rl and self.predicate_holds(conds, lrow, r))
+                        if matched_row and emp is not True:
+                            return "pairs"
+                    if tabs_ == frozenset() and emp is True and not ml and not rl:
+                        return "unmatched_lhs"
+            return "odd-row(%s)%s" % (";".join(sorted("%s<-%s@%s" % (c_, "+".join(sorted(t_)) or "empty", "+".join(sorted(A.show(x) for x in r_))) for c_, t_, r_ in d)), "" if emp is None else ":empty=%s" % emp)
+        return "other:" + A.show(v)[:30]
+
+    def row_desc(self, oid):
+        """what a row assembled in place holds: {(side of the column, tables its cell is read from, row numbers used)} - one entry per kind of cell"""
+        I = self.I
+        out = set()
+        rowish = set(self.left_loops) | set(self.right_loops) | {l for l, lp in I.loops.items() if lp["src"][0] == "obj" and lp["src"][1] in self.matchsets}
+        for c in A.contents(I, oid):
+            side = "?"
+            for l in c["loops"]:
+                s_ = I.loops[l]["src"]
+                if s_[0] == "field" and s_[2] == "data" and s_[1] in (L, R):
+                    side = "L" if s_[1] == L else "R"
+            val = A.proj(c["value"], 1)
+            sv = set(A.subvalues(val))
+            tabs = frozenset(n for n, at in (("L", L), ("R", R)) if at in sv)
+            rows = frozenset(x for x in sv if x[0] == "elem" and x[2] in rowish)
+            out.add((side, tabs, rows))
+        return out
+
+    def unmarked_guard(self, conds, rlid):
+        rrow = ("elem", self.I.loops[rlid]["src"], rlid)
+        for c, pol in conds:
+            if not pol and c[0] == "index" and c[1][0] == "obj" and c[1][1] in self.marks and c[2] == ("bin", "-", rrow, ("int", 1)):
+                return True
+        return False
+
+    def common_objs(self):
+        """the list(s) of shared column pairs: what the match predicate quantifies over"""
+        out = set()
+        for ms in self.matchsets.values():
+            n = _norm_predicate(self.I, ms["pred"])
+            if n is not None and self.I.loops[n[1]]["src"][0] == "obj":
+                out.add(self.I.loops[n[1]]["src"][1])
+        return out
+
+    def emissions(self):
+        if self.out_rows is None:
+            return []
+        return [(self.classify(it), it) for it in A.contents(self.I, self.out_rows)]
+
+    def marks_matched(self):
+        """matched right rows are marked: `marks[r - 1] = true` for r running over the match set of the current left row (or the right rows that satisfy the predicate)"""
+        I = self.I
+        for e in I.events:
+            if e["k"] != "set" or e["target"][0] != "obj" or e["target"][1] not in self.marks or e["value"] != ("bool", True):
+                continue
+            ix = e["index"]
+            if not (ix[0] == "bin" and ix[1] == "-" and ix[3] == ("int", 1) and ix[2][0] == "elem" and ix[2][2] in e["loops"]):
+                continue
+            r = ix[2]
+            conds = A.flat_conds(e["ctx"])
+            if self.emptiness_of_matchset(conds) is True:
+                continue
+            if r[1][0] == "obj" and r[1][1] in self.matchsets:
+                return True
+            ll = [l for l in e["loops"] if l in self.left_loops]
+            if r[2] in self.right_loops and ll and self.predicate_holds(conds, ("elem", I.loops[ll[-1]]["src"], ll[-1]), r):
+                return True
+        return False
+
+
+def _norm_predicate(I, p):
+    """-> (quantifier, loop id, body, filter conditions) of a match predicate, or None.  `all(eq)`, `!any(ne)` and the loop `for c in cols { if ne { return false } } true`
+    are the same predicate."""
+    neg = False
+    while p[0] == "not":
+        neg = not neg
+        p = p[1]
+    if p[0] == "quant":
+        kind, lid, body, conds = p[1], p[2], p[3], p[4]
+        if neg:
+            kind = "any" if kind == "all" else "all"
+            body = ("not", body)
+        return kind, lid, _norm_eq(body), conds
+    if p[0] == "rets" and not neg:
+        rets = p[1]
+        final = [r for r in rets if not r[2]]
+        inner = [r for r in rets if r[2]]
+        if len(final) == 1 and final[0][0][0] == "bool" and inner and all(len(r[2]) == 1 and r[2] == inner[0][2] and r[0] == ("bool", not final[0][0][1]) for r in inner) and len(inner) == 1:
+            lid = inner[0][2][0]
+            cs = A.flat_conds(inner[0][1])
+            body = None
+            for c, pol in cs:
+                body = (c if pol else ("not", c)) if body is None else ("bin", "&&", body, c if pol else ("not", c))
+            if body is None:
+                return None
+            if final[0][0][1]:
+                # returns false as soon as `body` holds for one element, true otherwise: all(!body)
+                return "all", lid, _norm_eq(("not", body)), ()
+            return "any", lid, _norm_eq(body), ()
+    return None
+
+
+def _paths_to(v, pred):
+    """[(marker value, conditions of the `if` expressions on the way down to it)] for every sub-value satisfying pred"""
+    out = []
+    st = [(v, ())]
+    seen = set()
+    while st:
+        x, conds = st.pop()
+        if not isinstance(x, tuple) or not x:
+            continue
+        if not isinstance(x[0], str):
+            st.extend((y, conds) for y in x if isinstance(y, tuple))
+            continue
+        if (x, conds) in seen:
+            continue
+        seen.add((x, conds))
+        if pred(x):
+            out.append((x, conds))
+        if x[0] == "ite":
+            st.append((x[1], conds))
+            st.append((x[2], conds + ((x[1], True),)))
+            st.append((x[3], conds + ((x[1], False),)))
+        else:
+            st.extend((y, conds) for y in x[1:] if isinstance(y, tuple))
+    return out
+
+
+def _norm_eq(b):
+    neg = False
+    while b[0] == "not":
+        neg = not neg
+        b = b[1]
+    if b[0] == "bin" and b[1] in ("==", "!="):
+        op = b[1]
+        if neg:
+            op = "==" if op == "!=" else "!="
+        return ("bin", op, b[2], b[3])
+    return ("not", b) if neg else b
 
 
 def run(F, rep, tier):
@@ -45,181 +489,221 @@ def run(F, rep, tier):
     structs = {}
     for it in items:
         if it["k"] == "method" and it["name"] == "compile" and "NativeFunctionCompiler" in (it.get("trait") or "") and it.get("body"):
-            for c in find(it["body"], "call"):
-                if (path_of(c[1]) or "").endswith("compile_table_join") and len(c[2]) == 2:
-                    mm = re.search(r"JoinMode::(\w+)", render(c[2][1]))
-                    structs[re.sub(r"\s", "", it["self"])] = mm.group(1) if mm else None
+            for c in list(find(it["body"], "call")) + list(find(it["body"], "mcall")):
+                cargs = c[2] if c[0] == "call" else c[4]
+                ms = [re.search(r"(?:^|::)JoinMode::(\w+)$", path_of(strip_refs(a)) or "") for a in cargs]
+                ms = [m.group(1) for m in ms if m]
+                if ms:
+                    structs[re.sub(r"\s", "", it["self"])] = ms[0] if len(set(ms)) == 1 else None
     rep.floor("C18-R1", "join compiler structs", len(structs), 6)
     for s, mode in sorted(structs.items()):
         ok = mode is not None and s == "Table%sJoin" % mode.replace("Join", "")
         rep.check(ok, "C18-R1", "struct:%s" % s if ok else "struct:%s->%s" % (s, mode), "%s compiles the join with JoinMode::%s" % (s, mode), "%s (%s)" % (s, crate), sample={"struct": s, "mode": mode})
-    n_tok = 0
-    for it in items:
-        if it["k"] == "fn" and it["name"] == "term" and it.get("body"):
-            for m in find(it["body"], "match"):
-                for a in m[2]:
-                    mm = re.search(r"TableOp::(\w+)", render_pat(a[0]))
-                    if not mm:
-                        continue
-                    used = [s_[1].split("::")[-1] for s_ in find(a[2], "struct") if s_[1].split("::")[-1].startswith("Table")]
-                    if not used:
-                        continue
-                    n_tok += 1
-                    ok = used == ["Table%s" % mm.group(1)]
-                    args = [render(x) for c in find(a[2], "mcall") if c[2] == "compile" and c[4] for x in walk(c[4][0]) if x[0] == "path" and x[1] in ("lhs", "rhs")]
-                    ok_args = args[:2] == ["lhs", "rhs"]
-                    rep.check(ok and ok_args, "C18-R1", "token:%s" % mm.group(1) if ok and ok_args else "token:%s->%s(%s)" % (mm.group(1), ",".join(used), ",".join(args[:2])),
-                              "term(): TableOp::%s compiles %s with operands %s" % (mm.group(1), used, args[:2]), "term (%s)" % crate, sample={"token": mm.group(1), "struct": used})
+    n_tok = check_tokens(items, rep, crate)
     rep.floor("C18-R1", "table operator tokens routed", n_tok, 6)
 
+    got, opt = check_join(items, rep, crate)
+    rep.analysed = dict(rep.analysed or {}, structs=structs)
+    run_r5(F, rep)
+
+
+def check_join(items, rep, crate):
+    """R2-R4 on the join routine found among `items` (recognised by signature)"""
+    got, opt = {}, {}
     # ---------------- R2
-    bj = [it for it in items if it["k"] == "method" and it["name"] == "build_joined_table" and it.get("body")]
-    if not rep.check(len(bj) == 1, "C18-R2", "anchor:build_joined_table", "build_joined_table not found (%d)" % len(bj)):
-        return
-    body = bj[0]["body"]
-    row_loops = [f for f in find(body, "for") if re.search(r"lhs\.rows", render(f[2])) and any(render(m[1]).strip("()& ") == "mode" and len(m[2]) >= 4 for m in find(f[3], "match"))]
-    if not rep.check(len(row_loops) == 1, "C18-R2", "anchor:left-row-loop", "the loop over the left rows with the `match mode` was not found (%d)" % len(row_loops)):
-        return
-    loop = row_loops[0]
-    rep.check(re.match(r"^1\.\.=lhs\.rows$", render(loop[2]).replace(" ", "")) is not None, "C18-R2", "left-rows:all", "the left rows are iterated as `%s`, not 1..=lhs.rows" % render(loop[2]), "build_joined_table")
-    # the candidate matches: every right row tested with rows_match
-    inner = [f for f in find(loop[3], "for") if re.search(r"rhs\.rows", render(f[2]))]
-    ok_inner = len(inner) == 1 and re.match(r"^1\.\.=rhs\.rows$", render(inner[0][2]).replace(" ", "")) is not None and any((path_of(c[1]) or "").endswith("rows_match") for c in find(inner[0][3], "call")) \
-        and not any(x[0] in ("break", "ret") for x in walk(inner[0][3]))
-    rep.check(ok_inner, "C18-R2", "candidates:every-right-row", "the right rows are not all tested with rows_match for each left row (loop `%s`, or it is left early)" % (render(inner[0][2]) if inner else "?"), "build_joined_table")
-    mm_ = [m for m in find(loop[3], "match") if render(m[1]).strip("()& ") == "mode" and len(m[2]) >= 4][0]
-    got = {}
-    marks = {}
-    for arm in mm_[2]:
-        modes = re.findall(r"JoinMode::(\w+)", render_pat(arm[0]))
-        if not modes:
+    bj = join_routines(items)
+    if not rep.check(len(bj) == 1, "C18-R2", "anchor:build_joined_table", "the join routine (two tables and a JoinMode -> table) was not found (%d)" % len(bj)):
+        return got, opt
+    routine = bj[0]
+    where = "%s (%s)" % (routine["name"], crate)
+    runs = {}
+    try:
+        for mo in MODES:
+            runs[mo] = ModeRun(items, routine, mo)
+    except (A.GiveUp, RecursionError, IndexError, TypeError, KeyError, ValueError, AttributeError) as ex:
+        rep.bad("C18-R2", "anchor:join-routine-not-analysable", "the join routine could not be evaluated symbolically (%s)" % ex, where)
+        return got, opt
+    em = {mo: r.emissions() for mo, r in runs.items()}
+    # the loop over the left rows: the one loop over the rows of the left table that encloses row emissions
+    def emitting_left_loops(r, es):
+        return {l for _, it in es for l in it["loops"] if l in r.left_loops}
+    n_left = {mo: len(emitting_left_loops(runs[mo], em[mo])) for mo in MODES}
+    ok_anchor = all(runs[mo].out_rows is not None for mo in MODES) and all(n == 1 for n in n_left.values())
+    if not rep.check(ok_anchor, "C18-R2", "anchor:left-row-loop", "the loop over the left rows that emits the output rows of every mode was not found (%s)" % n_left, where):
+        return got, opt
+    bad_left = sorted({A.show(r.I.loops[l]["src"]) for mo, r in runs.items() for l in emitting_left_loops(r, em[mo])
+                       if not (r.range_over_rows(l, L) and A.loop_is_plain(r.I, l))})
+    rep.check(not bad_left, "C18-R2", "left-rows:all", "the left rows are iterated as `%s` (or the loop is left early), not 1..=lhs.rows" % ", ".join(bad_left), where)
+    # the candidate matches: every right row tested with the match predicate, collected afresh for each left row
+    bad_inner = []
+    for mo, r in runs.items():
+        if not r.matchsets:
+            direct = [it for c, it in em[mo] if c == "pairs"]
+            if not direct:
+                bad_inner.append("%s: no list of matching right rows" % mo)
             continue
-        classes = set()
-        marked = any(x[0] == "assign" and re.match(r"^rhs_matched\[", render(x[1])) and render(x[2]) == "true" for x in walk(arm[2]))
-        abody = arm[2][1] if is_node(arm[2]) and arm[2][0] == "block" else [["expr", arm[2]]]
-        for site, facts in G.sites(abody, "mcall"):
-            if site[2] != "push" or render(site[1]) != "out_rows" or not site[4]:
-                continue
-            arg = site[4][0]
-            call = [c for c in find(arg, "call") if (path_of(c[1]) or "").split("::")[-1] in ("merge_rows", "lhs_only_row")]
-            if not call:
-                classes.add("other:" + render(arg)[:30])
-                continue
-            c = call[0]
-            fn = path_of(c[1]).split("::")[-1]
-            empt = None
-            for cond, pol in G.atoms(facts):
-                if cond[0] == "mcall" and cond[2] == "is_empty" and re.search(r"matched", render(cond[1])):
-                    empt = pol
-            in_match_loop = any(f_[0] == "for" and re.search(r"matched", render(f_[2])) and any(x is site for x in walk(f_[3])) for f_ in find(arm[2], "for"))
-            if fn == "merge_rows":
-                a_ = [render(x) for x in c[2]]
-                if in_match_loop and len(a_) >= 6 and a_[0:4] == ["lhs", "lhs_row", "rhs", "rhs_row"] and a_[5] == "false" and empt is not True:
-                    classes.add("pairs")
-                elif not in_match_loop and len(a_) >= 6 and a_[3] == "0" and a_[5] == "true" and empt is True:
-                    classes.add("unmatched_lhs")
-                else:
-                    classes.add("odd-merge(%s)%s" % (",".join(a_[3:6]), "" if empt is None else ":empty=%s" % empt))
-            else:
-                classes.add("semi" if empt is False else "anti" if empt is True else "lhs-only-unguarded")
-        for mo in modes:
-            got[mo] = classes
-            marks[mo] = marked
-    # trailing unmatched-right block
-    tail_modes = set()
-    tail_ok = False
-    for st in body:
-        e = st[1] if st[0] == "expr" else None
-        if is_node(e) and e[0] == "if":
-            ms = _modes_of_cond(e[1])
-            loops = [f for f in find(e[2], "for") if re.search(r"rhs\.rows", render(f[2]))]
-            if ms and loops:
-                tail_modes = ms
-                lp = loops[0]
-                skips = any(x[0] == "if" and re.search(r"rhs_matched\[", render(x[1])) and any(y[0] == "continue" for y in walk(x[2])) for x in walk(lp[3]))
-                pushes = any(x[0] == "mcall" and x[2] == "push" and render(x[1]) == "out_rows" for x in walk(lp[3]))
-                tail_ok = skips and pushes and re.match(r"^1\.\.=rhs\.rows$", render(lp[2]).replace(" ", "")) is not None
-    rep.check(tail_ok, "C18-R2", "unmatched-right-block", "the block that emits the unmatched right rows (loop over 1..=rhs.rows skipping rhs_matched rows) was not recognised", "build_joined_table")
-    for mo in tail_modes:
-        got.setdefault(mo, set()).add("unmatched_rhs")
-    rep.floor("C18-R2", "JoinMode arms analysed", len(got), 6)
+        for oid, ms in r.matchsets.items():
+            lp = r.I.loops[ms["right"]]
+            fresh = ms["left"] in ms["alloc"] or any(e["k"] == "clear" and e["obj"] == oid and ms["left"] in e["loops"] and ms["right"] not in e["loops"] for e in r.I.events)
+            if not (r.range_over_rows(ms["right"], R) and A.loop_is_plain(r.I, ms["right"]) and fresh and len(ms["conds"]) == 1):
+                bad_inner.append("%s: %s%s%s" % (mo, A.show(lp["src"]), "" if fresh else ", not reset per left row", "" if A.loop_is_plain(r.I, ms["right"]) else ", left early / adapted"))
+    rep.check(not bad_inner, "C18-R2", "candidates:every-right-row", "the right rows are not all tested with the match predicate for each left row (%s)" % "; ".join(sorted(set(bad_inner))[:3]), where)
+    got = {mo: {c for c, _ in em[mo]} for mo in MODES}
+    # the block that emits the unmatched right rows
+    tails = [(mo, it) for mo in MODES for c, it in em[mo] if c == "unmatched_rhs"]
+    tail_ok = bool(tails)
+    for mo, it in tails:
+        r = runs[mo]
+        rl = [l for l in it["loops"] if l in r.right_loops]
+        if not (len(it["loops"]) == 1 and r.range_over_rows(rl[-1], R) and not r.I.loops[rl[-1]]["adapt"]):
+            tail_ok = False
+    rep.check(tail_ok, "C18-R2", "unmatched-right-block", "the block that emits the unmatched right rows (loop over 1..=rhs.rows skipping the marked rows) was not recognised", where)
+    rep.floor("C18-R2", "JoinMode arms analysed", len([mo for mo in MODES if got[mo]]), 6)
     for mo in sorted(set(WANT) | set(got)):
         g = got.get(mo, set())
         w = WANT.get(mo)
         ok = w is not None and g == w
         rep.check(ok, "C18-R2", "mode:%s" % mo if ok else "mode:%s:emits-%s" % (mo, "+".join(sorted(g)) or "nothing"),
-                  "JoinMode::%s emits %s; relational algebra defines %s" % (mo, sorted(g), sorted(w) if w else "no such mode"), "build_joined_table (%s)" % crate, sample={"mode": mo, "emits": sorted(g)})
+                  "JoinMode::%s emits %s; relational algebra defines %s" % (mo, sorted(g), sorted(w) if w else "no such mode"), where, sample={"mode": mo, "emits": sorted(g)})
         if w and "unmatched_rhs" in w:
-            rep.check(marks.get(mo, False), "C18-R2", "mode:%s:marks-matched-right-rows" % mo, "JoinMode::%s emits pairs without marking rhs_matched: the matched right rows are emitted again as unmatched" % mo, "build_joined_table")
+            rep.check(runs[mo].marks_matched(), "C18-R2", "mode:%s:marks-matched-right-rows" % mo,
+                      "JoinMode::%s emits pairs without marking the matched right rows: they are emitted again as unmatched" % mo, where)
 
     # ---------------- R3
-    rm = [it for it in items if it["k"] == "fn" and it["name"] == "rows_match" and it.get("body")]
-    if rep.check(len(rm) == 1, "C18-R3", "anchor:rows_match", "rows_match not found"):
-        b = rm[0]["body"]
-        alls = [m for m in find(b, "mcall") if m[2] in ("all", "any")]
-        ok_all = len(alls) == 1 and alls[0][2] == "all" and re.match(r"^common_cols\.iter\(\)$", render(alls[0][1]).replace(" ", "")) is not None
-        rep.check(ok_all, "C18-R3", "rows_match:all-common-columns" if ok_all else "rows_match:%s" % (alls[0][2] + "-over-" + re.sub(r"\W+", "-", render(alls[0][1]))[:30] if alls else "no-quantifier"),
-                  "rows_match quantifies with `%s` over `%s`: two rows must agree on EVERY shared column" % (alls[0][2] if alls else "?", render(alls[0][1]) if alls else "?"), "rows_match (%s)" % crate)
-        cl = alls[0][4][0] if alls and alls[0][4] and is_node(alls[0][4][0]) and alls[0][4][0][0] == "closure" else None
-        if rep.check(cl is not None, "C18-R3", "anchor:rows_match-closure", "rows_match closure not found"):
-            lets = {}
-            for st in find(cl[2], "let"):
-                if st[1][0] == "pident" and st[2] is not None:
-                    lets[st[1][1]] = {x[1] for x in find(st[2], "path")}
-            eqs = [x for x in find(cl[2], "bin") if x[1] in ("==", "!=")]
-            ok_eq = len(eqs) == 1 and eqs[0][1] == "=="
+    preds = [(mo, ms) for mo, r in runs.items() for ms in r.matchsets.values()]
+    if rep.check(bool(preds), "C18-R3", "anchor:rows_match", "the match predicate (the condition under which a right row joins the matches of a left row) was not found", where):
+        shapes = set()
+        roles_ok = True
+        body_found = True
+        roles_txt = ""
+        common_ok = True
+        common_txt = ""
+        for mo, ms in preds:
+            I = runs[mo].I
+            n = _norm_predicate(I, ms["pred"])
+            if n is None:
+                shapes.add("no-quantifier")
+                body_found = False
+                continue
+            kind, lid, body, conds = n
+            src = I.loops[lid]["src"]
+            # the early `return` of the loop form IS the quantifier; any other exit or adaptor makes it a partial traversal
+            n_exit = 1 if ms["pred"][0] == "rets" else 0
+            plain = not I.loops[lid]["adapt"] and len(I.loops[lid]["exits"]) == n_exit and not conds and src[0] == "obj"
+            shapes.add("all-common-columns" if kind == "all" and plain else "%s-over-%s" % (kind, "common-columns" if plain else re.sub(r"\W+", "-", A.show(src))[:30] + ("-adapted" if src[0] == "obj" else "")))
+            if not (body[0] == "bin" and body[1] in ("==", "!=")):
+                body_found = False
+                continue
+            cc = src[1] if src[0] == "obj" else None
+            # which component of a shared-column pair is the left / right column: by where it comes from
+            celem = ("elem", src, lid)
+            comp_side = {}
+            if cc is not None:
+                for c_ in A.contents(I, cc):
+                    for k in (0, 1):
+                        ov = set(A.origin_values(I, A.proj(c_["value"], k)))
+                        comp_side.setdefault(k, set()).update(s_ for s_, at in (("L", L), ("R", R)) if at in ov)
             sides = []
-            if ok_eq:
-                for side in (eqs[0][2], eqs[0][3]):
-                    names = set()
-                    for x in find(side, "path"):
-                        names |= lets.get(x[1], {x[1]})
-                    sides.append(names)
-            ok_roles = ok_eq and any({"lhs", "lhs_col", "lhs_row"} <= s_ and not ({"rhs", "rhs_col", "rhs_row"} & s_) for s_ in sides) and \
-                any({"rhs", "rhs_col", "rhs_row"} <= s_ and not ({"lhs", "lhs_col", "lhs_row"} & s_) for s_ in sides)
-            rep.check(ok_roles, "C18-R3", "rows_match:cell-equality-own-table-column-row",
-                      "rows_match compares %s: expected the left cell (lhs, lhs_col, lhs_row) == the right cell (rhs, rhs_col, rhs_row)" % [sorted(s_) for s_ in sides], "rows_match (%s)" % crate)
-    # column discovery
-    disc = [f for f in find(body, "for") if re.search(r"lhs\.col_names", render(f[2]))]
-    ok_disc = False
-    if disc:
-        d = disc[0]
-        pushes = [m for m in find(d[3], "mcall") if m[2] == "push" and render(m[1]) == "common_cols"]
-        early = any(x[0] in ("break", "ret") for x in walk(d[3]))
-        by_name = any(m[2] == "get" and re.search(r"name", render(m[1])) and re.search(r"name", render(m[4][0]) if m[4] else "") for m in find(d[3], "mcall"))
-        ok_disc = len(pushes) == 1 and not early and by_name and not re.search(r"take\(|skip\(|first\(|next\(", render(d[2]))
-    rep.check(ok_disc, "C18-R3", "common-columns:every-shared-name", "the shared columns are not collected for every left column name found among the right names (loop `%s`)" % (render(disc[0][2]) if disc else "?"),
-              "build_joined_table (%s)" % crate)
+            for side in (body[2], body[3]):
+                sv = set(A.subvalues(side))
+                sides.append({"tables": {s_ for s_, at in (("L", L), ("R", R)) if at in sv},
+                              "rows": {s_ for s_, rw in (("L", ms["lrow"]), ("R", ms["rrow"])) if rw in sv},
+                              "cols": set().union(*[comp_side.get(k, {"?"}) for k in (0, 1) if ("proj", celem, k) in sv] or [set()])})
+            pure = lambda d, s_: d["tables"] == {s_} and d["rows"] == {s_} and d["cols"] == {s_}
+            if not (body[1] == "==" and ((pure(sides[0], "L") and pure(sides[1], "R")) or (pure(sides[0], "R") and pure(sides[1], "L")))):
+                roles_ok = False
+                roles_txt = "%s %s %s" % (sorted((k, sorted(v)) for k, v in sides[0].items()), body[1], sorted((k, sorted(v)) for k, v in sides[1].items()))
+            # column discovery: every left column name looked up among the right names (or the reverse), no early exit
+            ok_disc = False
+            if cc is not None:
+                cs = A.contents(I, cc)
+                if len(cs) == 1:
+                    c_ = cs[0]
+                    lps = [l for l in c_["loops"]]
+                    names = [I.loops[l]["src"] for l in lps]
+                    conds_ = A.flat_conds(c_["ctx"])
+                    if len(lps) == 1 and names[0][0] == "field" and names[0][2] == "col_names" and names[0][1] in (L, R) and A.loop_is_plain(I, lps[0]) and len(conds_) == 1 and conds_[0][1]:
+                        here = names[0][1]
+                        there = R if here == L else L
+                        dv = set(A.deep_values(I, conds_[0][0]))
+                        key_here = ("proj", ("elem", names[0], lps[0]), 1) in dv
+                        key_there = any(x[0] == "proj" and x[2] == 1 and x[1][0] == "elem" and x[1][1] == ("field", there, "col_names") for x in dv)
+                        test = conds_[0][0]
+                        presence = (test[0] == "is" and test[1].startswith("Some")) or (test[0] == "m" and test[2] in ("contains_key", "contains", "is_some"))
+                        ok_disc = key_here and key_there and presence and comp_side.get(0) == {"L"} and comp_side.get(1) == {"R"}
+                        if not ok_disc:
+                            common_txt = "test %s" % A.show(test)
+                    else:
+                        common_txt = "loop %s, %d conditions" % ([A.show(n_) for n_ in names], len(conds_))
+                else:
+                    common_txt = "%d insertion sites" % len(cs)
+            if not ok_disc:
+                common_ok = False
+        ok_all = shapes == {"all-common-columns"}
+        rep.check(ok_all, "C18-R3", "rows_match:all-common-columns" if ok_all else "rows_match:%s" % "+".join(sorted(shapes)),
+                  "the match predicate quantifies as %s: two rows must agree on EVERY shared column" % sorted(shapes), where)
+        if rep.check(body_found, "C18-R3", "anchor:rows_match-closure", "the comparison inside the match predicate was not found", where):
+            rep.check(roles_ok, "C18-R3", "rows_match:cell-equality-own-table-column-row",
+                      "the match predicate compares %s: expected the left cell (left table, left column, left row) == the right cell (right table, right column, right row)" % roles_txt, where)
+        rep.check(common_ok, "C18-R3", "common-columns:every-shared-name", "the shared columns are not collected for every left column name found among the right names (%s)" % common_txt, where)
 
     # ---------------- R4
-    opt = {}
-    for f in find(body, "for"):
-        side = "lhs" if re.search(r"lhs\.data", render(f[2])) else "rhs" if re.search(r"rhs\.data", render(f[2])) else None
-        if side is None or not any(m[2] == "push" and render(m[1]) == "output_cols" for m in find(f[3], "mcall")):
+    opt_modes = {"lhs": set(), "rhs": set()}
+    guard_ok = {"lhs": True, "rhs": True}
+    left_only_modes = set()
+    for mo, r in runs.items():
+        I = r.I
+        if r.out_cols is None:
             continue
-        for st in find(f[3], "let"):
-            if st[1][0] == "pident" and st[1][1] == "out_kind" and st[2] is not None and st[2][0] == "if":
-                ms = _modes_of_cond(st[2][1])
-                then_opt = any((path_of(c[1]) or "").endswith("make_optional_kind") for c in find(["block", st[2][2]], "call"))
-                common_guard = bool(re.search(r"!\s*common_%s\.contains" % side, render(st[2][1]).replace(" ", ""))) or side == "rhs"
-                if then_opt:
-                    opt[side] = (ms, common_guard)
+        wrappers = {name for name, its in I.fns.items() for it in its if _is_kind_wrapper(it)}
+        sides_seen = set()
+        for it in A.contents(I, r.out_cols):
+            sv = set(A.subvalues(it["value"]))
+            side = None
+            for l in it["loops"]:
+                s_ = I.loops[l]["src"]
+                if s_[0] == "field" and s_[2] == "data" and s_[1] in (L, R):
+                    side = "lhs" if s_[1] == L else "rhs"
+            if side is None:
+                continue
+            sides_seen.add(side)
+            # the kind is made optional: a call of the wrapper (&ValueKind -> ValueKind) or, when that is written in place, the ValueKind::Option constructor
+            marks = _paths_to(it["value"], lambda x: (x[0] == "call" and x[1] in wrappers) or (x[0] == "ctor" and re.search(r"(^|::)ValueKind::Option$", x[1]) is not None))
+            if not marks:
+                continue
+            opt_modes[side].add(mo)
+            # under which condition: only for the columns that are not shared
+            common = r.common_objs()
+
+            def shared_test(conds):
+                for cnd, pol in A.flat_conds(conds):
+                    if not pol and cnd[0] == "m" and cnd[2] in ("contains", "contains_key") and cnd[1][0] == "obj":
+                        holds = set(A.deep_values(I, cnd[1]))
+                        if not common or any(x[0] == "elem" and x[1][0] == "obj" and x[1][1] in common for x in holds):
+                            return True
+                return False
+            for mk_, path_conds in marks:
+                cond_sets = [tuple(it["ctx"]) + tuple(path_conds)]
+                if mk_[0] == "call":
+                    cond_sets += [e["ctx"] for e in I.events if e["k"] == "call" and e["name"] == mk_[1] and e["args"] == mk_[2]]
+                if side == "lhs" and not any(shared_test(cs) for cs in cond_sets):
+                    guard_ok[side] = False
+        if sides_seen == {"lhs"}:
+            left_only_modes.add(mo)
     want_opt = {"lhs": {"RightOuter", "FullOuter"}, "rhs": {"LeftOuter", "FullOuter"}}
+    opt = {}
     for side in ("lhs", "rhs"):
-        ms, cg = opt.get(side, (None, False))
+        ms, cg = opt_modes[side] or None, guard_ok[side]
+        opt[side] = (ms, cg)
         ok = ms == want_opt[side] and cg
         rep.check(ok, "C18-R4", "optional:%s-only-columns" % side if ok else "optional:%s-only-columns:%s" % (side, "+".join(sorted(ms)) if ms else "not-found"),
                   "%s-only columns become optional in %s (expected exactly %s%s): a column that can miss a value keeps a non-optional kind, or a complete one is made optional" % (
-                      side, sorted(ms) if ms else None, sorted(want_opt[side]), "" if cg else ", and only the non-shared ones"), "build_joined_table (%s)" % crate, sample={"side": side, "modes": sorted(ms) if ms else None})
-    semi = None
-    for st in body:
-        e = st[1] if st[0] == "expr" else None
-        if is_node(e) and e[0] == "if" and any(x[0] == "assign" and render(x[1]) == "output_cols" for x in walk(e[2])):
-            semi = (_modes_of_cond(e[1]), bool(re.search(r"lhs\.data", render(["block", e[2]]))) and not re.search(r"rhs\.data", render(["block", e[2]])))
-    ok = semi is not None and semi[0] == {"LeftSemi", "LeftAnti"} and semi[1]
-    rep.check(ok, "C18-R4", "semi-anti:left-columns-only", "the semi/anti joins do not reduce the output to the left table's columns (%s)" % (semi,), "build_joined_table (%s)" % crate)
-    rep.analysed = {"modes": {k: sorted(v) for k, v in got.items()}, "structs": structs, "optional": {k: sorted(v[0]) if v[0] else None for k, v in opt.items()}}
-    run_r5(F, rep)
+                      side, sorted(ms) if ms else None, sorted(want_opt[side]), "" if cg else ", and only the non-shared ones"), where, sample={"side": side, "modes": sorted(ms) if ms else None})
+    ok = left_only_modes == {"LeftSemi", "LeftAnti"}
+    rep.check(ok, "C18-R4", "semi-anti:left-columns-only", "the semi/anti joins do not reduce the output to the left table's columns (modes whose output has the left columns only: %s)" % sorted(left_only_modes), where)
+    rep.analysed = {"modes": {k: sorted(v) for k, v in got.items()}, "optional": {k: sorted(v[0]) if v[0] else None for k, v in opt.items()},
+                    "helpers_evaluated_in_place": sorted({n for r in runs.values() for n in r.I.inlined})}
+    return got, opt
 
 
 def run_r5(F, rep):
